@@ -28,7 +28,9 @@ def facts():
             continue  # the Lock/Unlock calls themselves
         eff = ls(s["Locks"])
         e = ls(ent.get(s["Func"])) if s["SameRecv"] else ""
-        lines.append("%s %s %s#%d lex=[%s] entry=[%s] %s" % (s["Field"], s["Func"], s["Kind"], s["Ord"], eff, e, s["Pre"]))
+        lines.append("%s %s %s#%d lex=[%s] entry=[%s] %s conds=[%s] note=%s" % (
+            s["Field"], s["Func"], s["Kind"], s["Ord"], eff, e, s["Pre"], " && ".join(s.get("Conds") or []),
+            s.get("Note") or "-"))
     for o in d["option_applies"] or []:
         lines.append("option-applied-in %s ctor=%s" % (o["Func"], o["InCtor"]))
     for f in d["funcs"]:
